@@ -21,7 +21,7 @@ func vSize() int {
 	return k + 2
 }
 
-//verif:harness prop=C03 name=pkcs7_pad unwind=260
+//verif:harness prop=C03 name=pkcs7_pad unwind=260 qtimeout=60
 func VerifPkcs7Pad() {
 	maxL := 12
 	if zzverif.Thorough() {
